@@ -100,7 +100,10 @@ func schemaObs(s *jschema.JSchema) string {
 	guard("ast", func() string { a, err := s.GetAST(); b, _ := json.Marshal(a); return string(b) + " " + errObs(err) })
 	guard("used", func() string { u, err := s.UsedUserTypes(); return fmt.Sprint(u, " ", errObs(err)) })
 	if cerr == nil {
-		guard("openapi", func() string { b, err := openapi.NewSchemaObject(s).MarshalJSON(); return string(b) + " " + errObs(err) })
+		guard("openapi", func() string {
+			b, err := openapi.NewSchemaObject(s).MarshalJSON()
+			return string(b) + " " + errObs(err)
+		})
 	}
 	return sb.String()
 }
@@ -377,7 +380,7 @@ func runC09(c *core.Ctx) error {
 	_ = rawToIdx
 	type obs struct {
 		digest, full string
-		cs          detCase
+		cs           detCase
 	}
 	var mu sync.Mutex
 	groups := map[string][]obs{}
